@@ -223,11 +223,12 @@ Proof.
   rewrite H3. f_equal. apply seval_word; [lia|]. reflexivity.
 Qed.
 
-(** from_i128 (no assertion): the signed 128-bit value modulo 2^(64 n) -- silently truncated when n = 1 *)
-Lemma int_from_i128_spec n v : 0 <= v < 2 ^ 128 ->
-  wf (int_from_i128 n v) /\ length (int_from_i128 n v) = n /\ eval (int_from_i128 n v) = sp_signed 128 v mod Bn n.
+(** from_i128: asserts LIMBS >= 2; then the signed 128-bit value in two's complement at the target width *)
+Lemma int_from_i128_spec n v r : 0 <= v < 2 ^ 128 -> int_from_i128 n v = Some r ->
+  (2 <= n)%nat /\ wf r /\ length r = n /\ eval r = sp_signed 128 v mod Bn n.
 Proof.
-  intros Hv. unfold int_from_i128. rewrite land_MAXW_mod.
+  intros Hv. unfold int_from_i128. destruct (Nat.ltb_spec n 2); [discriminate|]. intros E. injection E as <-.
+  rewrite land_MAXW_mod.
   pose proof B_pos. pose proof B_val as HB.
   assert (HBB : B * B = 2 ^ 128) by (rewrite HB; reflexivity).
   pose proof (Z.div_mod v B ltac:(lia)). pose proof (Z.mod_pos_bound v B ltac:(lia)).
@@ -235,9 +236,27 @@ Proof.
   assert (Hw : wf [v mod B; v / B]).
   { apply wf_cons; split; [assumption | apply wf_cons; split; [assumption | apply wf_nil]]. }
   destruct (int_resize_spec [v mod B; v / B] n Hw ltac:(cbn; lia)) as (R1 & R2 & R3).
-  split; [assumption|]. split; [assumption|]. rewrite R3. f_equal.
+  split; [assumption|]. split; [assumption|]. split; [assumption|]. rewrite R3. f_equal.
   unfold seval, sp_signed. cbn [eval length]. rewrite Bn_S, Bn_1, Z.mul_0_r, Z.add_0_r, HBB.
   replace (v mod B + B * (v / B)) with v by lia.
   change (2 ^ (128 - 1)) with (2 ^ 127). change (2 ^ 128) with (2 * 2 ^ 127).
   destruct (Z.ltb_spec (2 * v) (2 * 2 ^ 127)); destruct (Z.ltb_spec v (2 ^ 127)); (reflexivity || lia).
+Qed.
+Lemma int_from_i128_panics n v : int_from_i128 n v = None <-> (n < 2)%nat.
+Proof. unfold int_from_i128. destruct (Nat.ltb_spec n 2); split; intros; (reflexivity || discriminate || lia). Qed.
+
+(** for a value that the target can hold, the signed value is preserved exactly *)
+Lemma int_from_i128_value n v r : 0 <= v < 2 ^ 128 -> int_from_i128 n v = Some r -> seval r = sp_signed 128 v.
+Proof.
+  intros Hv E. destruct (int_from_i128_spec n v r Hv E) as (Hn & Hw & Hl & He).
+  pose proof (sp_signed_range 128 v ltac:(lia) Hv) as Hr. change (128 - 1) with 127 in Hr.
+  pose proof (Bn_le 2 n Hn) as Hle. rewrite Bn_S, Bn_1 in Hle. pose proof B_val as HB.
+  assert (HBB : B * B = 2 * 2 ^ 127) by (rewrite HB; reflexivity).
+  pose proof (Bn_pos n).
+  unfold seval. rewrite Hl, He.
+  destruct (Z_lt_ge_dec (sp_signed 128 v) 0).
+  - assert (E' : sp_signed 128 v mod Bn n = sp_signed 128 v + Bn n)
+      by (symmetry; apply (Z.mod_unique_pos _ _ (-1)); lia).
+    rewrite E'. destruct (Z.ltb_spec (2 * (sp_signed 128 v + Bn n)) (Bn n)); lia.
+  - rewrite Z.mod_small by lia. destruct (Z.ltb_spec (2 * sp_signed 128 v) (Bn n)); lia.
 Qed.
